@@ -419,3 +419,11 @@ package swap
 //@   requires wheld(p.orders.mu)
 //@ func (*Pair).order #lockpre
 //@   requires wheld(p.orders.mu)
+//@ func (*SwapV2).pair #lockpre
+//@   requires held(s.muPairs)
+//@ func (*SwapV2).addPair #lockpre
+//@   requires wheld(s.muPairs)
+//@ func (*Swap).pair #lockpre
+//@   requires held(s.muPairs)
+//@ func (*Swap).addPair #lockpre
+//@   requires wheld(s.muPairs)
